@@ -1,4 +1,4 @@
-\* C17 design spec, quick tier: 2 keys x 2 threads, every operation, capacities {0,1}
+\* C17 design spec, the algorithm BEFORE fixes e7aceb0 / 9182bd2 (unsynchronised finaliser, no re-check of ref on a closed cache) under the full quantifier: EXPECTED to break FinalizeOnce (model-level picture of defects F20 / F21)
 SPECIFICATION Spec
 CONSTANTS
   Keys = {k1, k2}
@@ -11,8 +11,8 @@ CONSTANTS
   GetModes = {"set", "only", "nil"}
   Ops = {"delete", "evict", "evictall", "setcap", "close", "closeforce"}
   RecheckRef = TRUE
-  AtomicFin = TRUE
-  RecheckClosed = TRUE
+  AtomicFin = FALSE
+  RecheckClosed = FALSE
   CloseExcl = FALSE
 SYMMETRY Symm
 VIEW View
